@@ -47,7 +47,7 @@ _scratch = None
 
 def scratch():
     global _scratch
-    if _scratch is None:
+    if _scratch is None or not os.path.isdir(_scratch):
         _scratch = tempfile.mkdtemp(prefix="c08_")
         import atexit
         atexit.register(shutil.rmtree, _scratch, True)
